@@ -105,7 +105,8 @@ func c14Run(r *Run, depth, shard int) {
 	}
 
 	bfs := &BFS{
-		Scn: scn, MaxDepth: depth, ValidatePaths: shard == 0, RootShard: shard, RootShards: c14Shards,
+		SeqDepth: 2,
+		Scn:      scn, MaxDepth: depth, ValidatePaths: shard == 0, RootShard: shard, RootShards: c14Shards,
 		Actions: func(n *Node, w *World) []Action { return menu },
 		State: func(r *Run, n *Node, w *World) {
 			view := ViewOf(w)
